@@ -153,7 +153,7 @@ def main(tier, replay, t0):
                     tag = [t for t in c.spec.families if t != "hostile"][0]
                     viol.append(Violation("generator-panics", tag,
                                           "valid WGSL (naga accepts) makes the generator panic: %s"
-                                          % g.get("panic"), {"wgsl": c.wgsl, "options": x["opt"]}))
+                                          % g.get("panic"), {"case_id": c.id, "wgsl": c.wgsl, "options": x["opt"]}))
                 elif c.family == "fixture" and valid and x["opt"].get("en"):
                     fixture_declined.append((c.id, x["id"], g.get("panic") or g.get("err_kind")))
                 declines += 1
@@ -195,7 +195,7 @@ def main(tier, replay, t0):
                               "returned module is rejected by rustc against wgpu 24.0.5 + the "
                               "crates its options name: [%s] %s" % (bad[0].get("code"),
                                                                    bad[0].get("message")),
-                              {"wgsl": c.wgsl, "options": x["opt"],
+                              {"case_id": c.id, "wgsl": c.wgsl, "options": x["opt"],
                                "rustc": [(dg.get("code"), dg.get("message")) for dg in bad][:4],
                                "rendered": bad[0].get("rendered", "")[:1500]}))
     for k, (key, (path, c, x)) in enumerate(items[:3]):
